@@ -3,16 +3,12 @@
    andybalholm/brotli) are the Section variables enc/dec with the hypothesis dec k (enc k lvl x) = x, which the
    harness tests on the real libraries in every run (codec cases, levels -5..15, sizes 0 B - 64 KiB / MiB).
 
-   History: two defects found here were repaired in /repo (0c40a4c: a stackless writer operation refused by a full
+   History: three defects found here were repaired in /repo (0c40a4c: a stackless writer operation refused by a full
    queue was dropped silently, truncating streamed bodies and Write*Level output; f11ef83: addVaryBytes matched
-   "Accept-Encoding" as a substring of another Vary member).  The model is of the repaired code and the theorems
-   below are stated for it; the former witnesses are in the harness corpus (they fail prop_ok if the defects come
-   back).
-
-   Full statement: forall handler kinds, levels, Accept-Encoding, responses, queue occupancies and schedules, the body
-   decodes to the handler's body.  FALSE of the code as it is for streamed bodies (and Write*Level to a generic writer)
-   coded with zstd beyond one encoder block (finding zstd-stackless-async-write, confirmed on the real code:
-   CRC errors in 95% of 4 MiB streamed responses): C22_roundtrip_refuted.  Proved under the guard sync_coder. *)
+   "Accept-Encoding" as a substring of another Vary member; b444fe3: the zstd encoder wrote blocks asynchronously,
+   racing with the stackless writer: most streamed zstd bodies beyond a few blocks were corrupt).  The model is of the
+   repaired code and the theorems below are the full statements; the former witnesses are in the harness corpus
+   (4 MiB zstd streams, saturation scenarios, Vary inputs) and fail prop_ok if the defects come back. *)
 From FH Require Import Model.Base Gen.GenC22 Spec.CompressSpec Model.Compress Proof.CompressProof.
 Open Scope N_scope.
 
@@ -31,16 +27,13 @@ Section Codec.
   (* every response body, buffered or streamed (any number of reads of the body stream): for every handler kind,
      levels, Accept-Encoding, response, EVERY queue occupancy of the stackless function and EVERY schedule of
      refusals met by the stackless writer operations, the body the wrapper leaves decodes (per the coding it
-     declares) to exactly the handler's body — provided a STREAMED body is not handed to a coder that writes
-     asynchronously (zstd beyond one 128 KiB block); buffered bodies need no guard *)
+     declares) to exactly the handler's body *)
   Theorem C22_roundtrip_any_load : forall kd bl ol ae inflight cap sched r,
-    (r_streamed r = true -> forall k, choose kd ae = Some k -> sync_coder k (r_body r)) ->
     exists w, c_body (snd (compress_handler enc kd bl ol ae inflight cap sched r)) = SOk w /\ decode dec w = Some (r_body r).
   Proof. exact (roundtrip_any_load enc dec dec_enc). Qed.
 
   (* Write<Coding>Level to any other io.Writer (stackless.Writer path): same, whatever the queue refuses *)
   Theorem C22_write_roundtrip : forall k lvl p full_write full_close,
-    sync_coder k p ->
     exists w, write_generic enc k lvl p full_write full_close = SOk w /\ decode dec w = Some p.
   Proof. exact (write_generic_roundtrip enc dec dec_enc). Qed.
 
@@ -51,7 +44,7 @@ Section Codec.
     (let c := snd (compress_handler enc kd bl ol ae inflight cap sched r) in
      c = unchanged r \/
      exists k lvl, choose kd ae = Some k /\ r_ce r = [] /\ c_ce c = tok k /\
-       (c_body c = SOk (WCoded k (enc k lvl (r_body r)) true) \/ c_body c = SOk (WLossy k (enc k lvl (r_body r))))).
+       c_body c = SOk (WCoded k (enc k lvl (r_body r)) true)).
   Proof. intros. split; [apply never_twice|apply coded_once]. Qed.
 End Codec.
 
@@ -59,14 +52,6 @@ Print Assumptions C22_append_roundtrip.
 Print Assumptions C22_roundtrip_any_load.
 Print Assumptions C22_write_roundtrip.
 Print Assumptions C22_never_twice.
-
-(* the guard is needed: for any codec, a streamed body of 131073 bytes requested with Accept-Encoding: zstd is handed to
-   the asynchronous coder and nothing can be said about what the response decodes to *)
-Theorem C22_roundtrip_refuted :
-  forall (enc : coding -> Z -> bytes -> bytes) (dec : coding -> bytes -> bytes),
-    exists w, c_body (snd (compress_handler enc HLevel 6 6 [s2b "zstd"] 0 2048 [] zstd_witness)) = SOk w /\ decode dec w = None.
-Proof. exact zstd_stream_refuted. Qed.
-Print Assumptions C22_roundtrip_refuted.
 
 (* the coding a Compress handler picks occurs, as a bare list element (weight 1), in the request's Accept-Encoding:
    for ALL Accept-Encoding lines whose first line is syntactically valid (RFC 9110 12.5.3 elements
